@@ -1579,8 +1579,11 @@ def _mask_index(t, key, pos):
         for i in range(n):
             cnt = core._num_op("+", cnt, to_i(mask._elem(i)))
     else:
-        cnt = z3.Int(c.fresh("masklen"))
-        c.assume(cnt >= 0, cnt <= zi(n))
+        cnt = getattr(mask, "_count_sym", None)  # one count per mask object
+        if cnt is None:
+            cnt = z3.Int(c.fresh("masklen"))
+            c.assume(cnt >= 0, cnt <= zi(n))
+            mask._count_sym = cnt
     shape = list(t.rshape)
     shape[axis] = cnt
     return MaskedAxisTensor(
@@ -2105,11 +2108,39 @@ linalg = _Linalg()
 
 
 def cumsum(a):
-    raise OutOfReach("cumsum")
+    """bounded: 1-D tensor of concrete length"""
+    t = _as_tensor_or_scalar(a)
+    if t is None or t.ndim != 1 or not isinstance(t.rshape[0], int):
+        raise OutOfReach("cumsum of symbolic-length / n-d tensor")
+    vals, acc = [], None
+    for k in range(t.rshape[0]):
+        v = to_f(t._elem(k))
+        acc = v if acc is None else acc + v
+        vals.append(acc)
+    if not vals:
+        return STensor((0,), _raise_empty, "f")
+    return STensor((len(vals),), _list_elem(vals, "f"), "f")
 
 
 def argmax(a):
-    raise OutOfReach("argmax")
+    """bounded: index of the first maximal entry of a 1-D tensor of concrete length (for a
+    boolean tensor: the first True, 0 when there is none)"""
+    t = _as_tensor_or_scalar(a)
+    if t is None or t.ndim != 1 or not isinstance(t.rshape[0], int) or t.rshape[0] == 0:
+        raise OutOfReach("argmax of symbolic-length / n-d / empty tensor")
+    n = t.rshape[0]
+    if t.kind == "b":
+        r = 0
+        for k in range(n - 1, -1, -1):
+            r = r_ite(raw(t._elem(k)), k, r)
+        return sint(r)
+    best, idx = to_f(t._elem(0)), 0
+    for k in range(1, n):
+        v = to_f(t._elem(k))
+        better = raw(v > best)
+        idx = r_ite(better, k, idx)
+        best = f_ite(better, v, best)
+    return sint(idx)
 
 
 def argwhere(a):
